@@ -24,7 +24,7 @@ func init() {
 			"read and leads to a rejection when it is not a hex digit resp. a dot, and the function runs only when len(name) == 4*16-1+len(suffix); (R3) the IPv4 part is parsed by netip.ParseAddr, " +
 			"rejected unless Is4(), and reversed by the permutation k -> 3-k; (R4) encoder and decoder tables agree: per byte low nibble then high nibble in base 16 from the last byte to the first vs. " +
 			"offset 0 = low, offset 2 = high into byte 15-i; decimal octets by strconv.Itoa vs netip's decimal parser; the same suffix constants on both sides. " +
-			"Not decided: the round trip as a statement about all 2^32 + 2^128 values.",
+			"The name tested against the suffixes is never cut at the front (whole-name); ValidateDomainName validates only the Punycode form of its argument (validator-discipline). Not decided: the round trip as a statement about all 2^32 + 2^128 values.",
 		Technique: "exact abstract evaluation of go/ssa into ROBDDs (encoder, IPv4/IPv6 decoders and the whole round trip over every spelling, as Boolean functions of the address bits / name bytes, compared with the codec) + SSA provenance rules for the dispatcher (suffix tests, ASCII lowering); structural table/index-set rules as fall-back",
 		Note:      "Trusted: go/ssa, netip.ParseAddr, strconv.Itoa/FormatUint, strings.HasSuffix/TrimSuffix.",
 		DesignRef: "DESIGN.md section 4, C04",
@@ -38,7 +38,7 @@ func init() {
 			"the root suffix or has a '.' right before it (byte fact), and the right-to-left label scanners test the byte before each candidate label; (R3) no leading zero is accepted: at the store of an " +
 			"octet every abstract state entails len(label) == 1 or label[0] != '0'; the octet parser's bit size matches the byte conversion; (R4) arithmetic skeleton: prefix length 8*l resp. 4*l with l " +
 			"incremented once per consumed label, the address is a zeroed local written only at ip[l] resp. ip[l/2] (high nibble for even l), more than 3 dots / more than 71 bytes are rejected before the " +
-			"partial decoders run. Not decided: the extractor on names longer than the evaluated lengths as a whole (its scanners and decoders are decided separately there); what ValidateDomainName accepts (C03).",
+			"partial decoders run; (R5) the name tested against the suffixes is never cut at the front (label starts are positions of the whole name), and ValidateDomainName validates only the Punycode form of its argument. Not decided: the extractor on names longer than the evaluated lengths as a whole (its scanners and decoders are decided separately there); what ValidateDomainName accepts (C03).",
 		Technique: "exact abstract evaluation of go/ssa into ROBDDs (both prefix decoders for every name length, both index scanners, the octet predicate, and both entry points whole with the domain validator uninterpreted, compared with the grammar as Boolean functions of the name bytes); abstract interpretation with byte facts (asserted obligations), SSA provenance and skeleton rules as fall-back",
 		Note:      "Trusted: go/ssa, /verif/sa/lincon, strconv.ParseUint, strings.LastIndexByte/Count.",
 		DesignRef: "DESIGN.md section 4, C05",
@@ -78,6 +78,79 @@ func asciiFoldRule(c *Ctx, prop string, f *ssa.Function) {
 	if n == 0 {
 		c.undecided(prop+".ascii-fold", f, "HasSuffix(_, arpa suffix)", nil, "no suffix test against the ARPA constants found")
 	}
+}
+
+// wholeNameRule: the text that is tested against the ARPA suffixes — and
+// from there scanned for labels and decoded — is the caller's name as a
+// whole: it derives from the parameter without a cut at the front.  The
+// scanners and decoders take index 0 of what they are given for the start of
+// a label; a name shortened from the left ("only the last 72 bytes can
+// matter") starts in the middle of one.  Cuts at the end (the trailing dot)
+// do not move label starts.  This is what the bounded exact rules cannot see
+// when the cut only happens beyond the lengths they evaluate.
+func wholeNameRule(c *Ctx, prop string, f *ssa.Function) {
+	rule := prop + ".whole-name"
+	in := ssa.Value(f.Params[0])
+	n := 0
+	for _, ci := range core.CallsTo(f, "strings.HasSuffix") {
+		call := ci.(*ssa.Call)
+		if _, ok := arpaSuffixConst(call.Call.Args[1]); !ok {
+			continue
+		}
+		n++
+		why := frontCut(call.Call.Args[0], in, map[ssa.Value]bool{})
+		c.check(why == "", rule, f, "the name tested against the ARPA suffix is not cut at the front", call, "label starts are positions of the whole name: "+why)
+	}
+	for _, name := range []string{"strings.CutSuffix", "strings.TrimSuffix"} {
+		for _, ci := range core.CallsTo(f, name) {
+			call := ci.(*ssa.Call)
+			if _, ok := arpaSuffixConst(call.Call.Args[1]); !ok {
+				continue
+			}
+			n++
+			why := frontCut(call.Call.Args[0], in, map[ssa.Value]bool{})
+			c.check(why == "", rule, f, "the name tested against the ARPA suffix is not cut at the front", call, "label starts are positions of the whole name: "+why)
+		}
+	}
+	if n == 0 {
+		c.L.Notef("%s: no suffix test against the ARPA constants found in %s; the rule has nothing to look at", rule, f.Name())
+	}
+}
+
+func frontCut(v, in ssa.Value, seen map[ssa.Value]bool) string {
+	if v == in || seen[v] {
+		return ""
+	}
+	seen[v] = true
+	switch x := v.(type) {
+	case *ssa.Phi:
+		for _, e := range x.Edges {
+			if why := frontCut(e, in, seen); why != "" {
+				return why
+			}
+		}
+	case *ssa.Slice:
+		if x.Low != nil {
+			if k, ok := core.ConstInt(x.Low); !ok || k != 0 {
+				return "the name is re-sliced from " + core.Describe(x.Low) + " on"
+			}
+		}
+		return frontCut(x.X, in, seen)
+	case *ssa.Extract:
+		return frontCut(x.Tuple, in, seen)
+	case *ssa.Call:
+		n := core.CalleeName(&x.Call)
+		switch n {
+		case "strings.TrimPrefix", "strings.TrimLeft", "strings.CutPrefix", "strings.TrimSpace", "strings.Trim", "strings.TrimLeftFunc", "strings.TrimFunc":
+			return n + " removes bytes at the front of the name"
+		}
+		if len(x.Call.Args) >= 1 {
+			if _, isStr := x.Call.Args[0].Type().Underlying().(*types.Basic); isStr {
+				return frontCut(x.Call.Args[0], in, seen)
+			}
+		}
+	}
+	return ""
 }
 
 func foldProvenance(c *Ctx, v, in ssa.Value, seen map[ssa.Value]bool) (string, bool) {
@@ -380,12 +453,17 @@ func intConst(c *Ctx, pkg, name string) (int64, bool) {
 
 func runC04(c *Ctx) {
 	c.L.Trust("go/types + go/ssa", "netip.ParseAddr accepts exactly dotted-decimal IPv4 without leading zeros (and IPv6)", "strconv.Itoa / FormatUint")
+	validatorDiscipline(c, "C04")
 	c.L.Floor("C04.ascii-fold", 1)
 	c.L.Floor("C04.v6.every-byte-checked", 3)
 	c.L.Floor("C04.v4.parse", 2)
 	c.L.Floor("C04.codec-tables", 4)
 
 	dec := c.fn("netutil", "IPFromReversedAddr")
+	if dec != nil {
+		c.L.Floor("C04.whole-name", 1)
+		wholeNameRule(c, "C04", dec)
+	}
 	if c04AcceptedExact(c) {
 		// the accepted language of the whole decoder is decided exactly
 		// (c04enc.go): the dispatcher rules are the fall-back
@@ -1007,6 +1085,7 @@ func emittedInOrder(f *ssa.Function) bool {
 
 func runC05(c *Ctx) {
 	c.L.Trust("go/types + go/ssa", "abstract interpreter /verif/sa/lincon (byte facts)", "strconv.ParseUint, strings.Count, strings.LastIndexByte")
+	validatorDiscipline(c, "C05")
 	c.L.Floor("C05.ascii-fold", 2)
 	c.L.Floor("C05.label-aligned", 2)
 	c.L.Floor("C05.no-leading-zero", 1)
@@ -1047,6 +1126,12 @@ func runC05(c *Ctx) {
 
 	pfr := c.fn("netutil", "PrefixFromReversedAddr")
 	ext := c.fn("netutil", "ExtractReversedAddr")
+	c.L.Floor("C05.whole-name", 2)
+	for _, f := range []*ssa.Function{pfr, ext} {
+		if f != nil {
+			wholeNameRule(c, "C05", f)
+		}
+	}
 	// the dispatcher rules are fall-backs of the whole-function decisions
 	nFold := 2
 	for _, f := range []*ssa.Function{pfr, ext} {
